@@ -1753,6 +1753,8 @@ def install_kill_event(mon, spec):
     def arm():
         mon.model.kill_after = mon.model.points + 1
         mon.model.kill_hook = mon.flush
+        if spec.get("signal"):
+            mon.model.kill_signal = spec["signal"]
         mon.flags["kill_event_armed"] = True
 
     def before_populate(self, *a, **kw):
@@ -1936,6 +1938,29 @@ def install_pool(mon):
             if result.tobytes() != samples[last[0]].tobytes():
                 mon.violation("draw-returned-wrong-pool-row:" +
                               type(self).__name__, "")
+            # the row that is handed out carries the model's values (a pool
+            # restored from a checkpoint is not seen by the population hook)
+            row = np.atleast_1d(result)
+            with model.quiet():
+                ll = model.ref_log_likelihood(row)
+                lp = model.ref_log_prior(row)
+            ulps = 0 if getattr(model, "exact", True) else 4
+            with np.errstate(invalid="ignore"):
+                bad_l = not ((row["logL"][0] == ll[0]) or abs(
+                    row["logL"][0] - ll[0]) <= ulps * np.spacing(abs(ll[0])))
+                bad_p = not ((row["logP"][0] == lp[0]) or abs(
+                    row["logP"][0] - lp[0]) <= ulps * np.spacing(abs(lp[0])))
+            mon.count("pool.drawn_rows_checked")
+            if bad_l:
+                mon.violation("drawn-pool-point-logL!=model:" +
+                              type(self).__name__,
+                              f"handed out logL {row['logL'][0]!r}, model "
+                              f"{ll[0]!r}")
+            if bad_p:
+                mon.violation("drawn-pool-point-logP!=model:" +
+                              type(self).__name__,
+                              f"handed out logP {row['logP'][0]!r}, model "
+                              f"{lp[0]!r}")
             if last[0] in self.indices:
                 mon.violation("pool-index-handed-out-twice:" +
                               type(self).__name__, "")
